@@ -316,7 +316,8 @@ def probe(port, tag):
     problems = []
     c = res.get("client") or [("bad", "none", "")]
     if res.get("offer") is None:
-        problems.append("the proxy poll was not handed the client's offer: %r" % (res.get("proxy") or [None])[0][:3])
+        pr = res.get("proxy")
+        problems.append("the proxy poll was not handed the client's offer: %r" % ((pr[0][:3] if pr else "no response"),))
     elif "c14" not in res["offer"]:
         problems.append("the proxy poll was handed another offer: %r" % res["offer"][:80])
     if c[0][0] != "ok" or c[0][1] != 200 or b'"answer"' not in c[0][2] or b"sdp" not in c[0][2]:
@@ -332,7 +333,7 @@ def probe(port, tag):
     for path, want in (("/debug", b"current snowflakes available"), ("/robots.txt", b"Disallow"), ("/prometheus", b"snowflake_"), ("/metrics", None)):
         r = exchange(port, Req("GET", path, "empty", "-", False, sid))
         if not r or r[0][0] != "ok" or r[0][1] != 200 or (want and want not in r[0][2]):
-            problems.append("GET %s: %r" % (path, (r or [None])[0][:3] if r else None))
+            problems.append("GET %s: %r" % (path, (r[0][:3] if r else None)))
     return problems
 
 
@@ -434,6 +435,36 @@ def _matrix(rep, tier, b, cov):
         if all(again):
             rep.finding("t2:keepalive:" + x[1], "on one connection: [%s] then [%s]: request %d: %s" % (r1.desc(), r2.desc(), i + 1, x[2]),
                         {"kind": "two raw HTTP requests on one kept-alive connection to the broker binary", "first": r1.desc(), "second": r2.desc()})
+    # overlapping proxy polls under one session id (a proxy that polls again before its earlier poll was
+    # answered), at the same instant and one second apart, with and without a client coming in between
+    dup_bad = []
+
+    def dup(k):
+        sid = "dupsid%d" % k
+        outs = []
+
+        def poll(delay):
+            time.sleep(delay)
+            outs.append(exchange(b.port, Req("POST", "/proxy", "valid", "-", False, sid)))
+        ts = [threading.Thread(target=poll, args=(0,)), threading.Thread(target=poll, args=((k % 2) * 1.0,))]
+        if k >= 2:
+            ts.append(threading.Thread(target=lambda: (time.sleep(2.0), outs.append(exchange(b.port, Req("POST", "/client", "valid", "-", False, sid))))))
+        for t in ts:
+            t.start()
+        for t in ts:
+            t.join(DEADLINE * 2)
+        with lock:
+            if len(outs) != len(ts):
+                dup_bad.append((k, "no-response-in-time", "%d of %d overlapping requests under session id %s were never answered" % (len(ts) - len(outs), len(ts), sid)))
+            for o in outs:
+                if o[0][0] == "bad":
+                    dup_bad.append((k, o[0][1], o[0][2]))
+    with ThreadPoolExecutor(max_workers=4) as ex:
+        list(ex.map(dup, range(4)))
+    cov["overlapping_polls_under_one_session_id"] = 4
+    for k, sig, msg in dup_bad[:4]:
+        rep.finding("t2:same-session-id:" + sig, "two proxy polls under one session id (%s apart%s): %s" % ("1 s" if k % 2 else "0 s", ", then a client" if k >= 2 else "", msg),
+                    {"kind": "overlapping raw HTTP requests to the broker binary"})
     # afterwards: the process is up and serves a fresh proxy + client
     probs = None
     for k in range(3):
